@@ -12,11 +12,14 @@ package dnsforward
 // (why, response class, address tokens, upstream calls).
 
 import (
+	"bytes"
 	"context"
 	"encoding/json"
 	"fmt"
 	"math/rand"
 	"net"
+	"net/http"
+	"net/http/httptest"
 	"net/netip"
 	"os"
 	"os/exec"
@@ -373,14 +376,39 @@ func zzC0102Harmless(qtype string) (ans []zzC0102RR) {
 type zzC0102Srv struct {
 	s   *Server
 	f   *filtering.DNSFilter
+	fc  *filtering.Config
 	up  *zzC0102Up
 	ql  *zzC0102QLog
 	st  *client.Storage
 	cfg *zzC0102Cfg
+	dir string
 	// texts are the rule lines by place, for diagnostics.
 	texts map[string][]string
-	reqID uint64
+	// lists is the concrete state of the rule lists by key ("allow", "block",
+	// "block2", "offallow", "offblock").
+	lists map[string]*zzC0102List
+	// handlers are the HTTP handlers filtering registered, by path.
+	handlers map[string]http.HandlerFunc
+	// asked is the set of questions this server has been asked.
+	asked map[string]bool
+	// ops is the log of reconfiguration operations, for diagnostics.
+	ops       []string
+	gen       int
+	wildStyle int
+	reqID     uint64
 }
+
+// zzC0102List is the concrete state of one rule list of a live server.
+type zzC0102List struct {
+	key     string
+	white   bool
+	src     string
+	exists  bool
+	enabled bool
+	lines   []string
+}
+
+var zzC0102ListKeys = []string{"allow", "block", "block2", "offallow", "offblock"}
 
 func zzC0102Services(svc string) (b *filtering.BlockedServices) {
 	b = &filtering.BlockedServices{Schedule: schedule.EmptyWeekly()}
@@ -397,46 +425,96 @@ func zzC0102Services(svc string) (b *filtering.BlockedServices) {
 
 var zzC0102InitOnce sync.Once
 
-// zzC0102Build builds the real objects for cfg under dir.
+func zzC0102ListBody(key string, lines []string) (body []byte) {
+	return []byte("! zz-verif list " + key + "\n" + strings.Join(lines, "\n") + "\n")
+}
+
+// render fills z.texts for cfg and returns the lines by list key.
+func (z *zzC0102Srv) render(cfg *zzC0102Cfg, rng *rand.Rand, split bool) (byKey map[string][]string) {
+	z.texts = map[string][]string{}
+	byKey = map[string][]string{}
+	for i := range cfg.Rules {
+		r := &cfg.Rules[i]
+		t := zzC0102RuleText(r, rng, z.wildStyle)
+		z.texts[r.Place] = append(z.texts[r.Place], t)
+		k := r.Place
+		if k == "block" && split && rng.Intn(3) == 0 {
+			// Block rules are spread over two enabled lists, seeded.
+			k = "block2"
+		}
+		byKey[k] = append(byKey[k], t)
+	}
+
+	return byKey
+}
+
+func (z *zzC0102Srv) persistent(c zzC0102Client) (p *client.Persistent) {
+	return &client.Persistent{
+		Name: zzC0102Kid, UID: client.MustNewUID(),
+		IPs:                   []netip.Addr{netip.MustParseAddr(zzC0102C1)},
+		UseOwnSettings:        c.UseOwn,
+		FilteringEnabled:      c.Filt,
+		UseOwnBlockedServices: c.Svc != "inherit",
+		BlockedServices:       zzC0102Services(c.Svc),
+	}
+}
+
+// zzC0102Build builds the real objects for cfg under dir (an absolute path).
 func zzC0102Build(cfg *zzC0102Cfg, dir string, rng *rand.Rand) (z *zzC0102Srv, err error) {
 	zzC0102InitOnce.Do(filtering.InitModule)
 
-	z = &zzC0102Srv{cfg: cfg, texts: map[string][]string{}}
-	wildStyle := rng.Intn(3)
-	for i := range cfg.Rules {
-		r := &cfg.Rules[i]
-		z.texts[r.Place] = append(z.texts[r.Place], zzC0102RuleText(r, rng, wildStyle))
+	z = &zzC0102Srv{
+		cfg: cfg, dir: dir, lists: map[string]*zzC0102List{}, handlers: map[string]http.HandlerFunc{},
+		asked: map[string]bool{}, wildStyle: rng.Intn(3),
 	}
+	byKey := z.render(cfg, rng, true)
 
-	fdir := filepath.Join(dir, "filters")
-	if err = os.MkdirAll(fdir, 0o755); err != nil {
-		return nil, err
-	}
-
-	// Block rules are spread over two enabled lists, seeded.
-	lists := map[int][]string{}
-	for _, t := range z.texts["block"] {
-		id := 21
-		if rng.Intn(3) == 0 {
-			id = 23
-		}
-		lists[id] = append(lists[id], t)
-	}
-	lists[11] = z.texts["allow"]
-	lists[12] = z.texts["offallow"]
-	lists[22] = z.texts["offblock"]
-	for id, lines := range lists {
-		body := "! zz-verif list " + strconv.Itoa(id) + "\n" + strings.Join(lines, "\n") + "\n"
-		if err = os.WriteFile(filepath.Join(fdir, strconv.Itoa(id)+".txt"), []byte(body), 0o644); err != nil {
+	fdir, sdir := filepath.Join(dir, "filters"), filepath.Join(dir, "src")
+	for _, d := range []string{fdir, sdir} {
+		if err = os.MkdirAll(d, 0o755); err != nil {
 			return nil, err
 		}
 	}
 
-	mkList := func(id int, on bool) (f filtering.FilterYAML) {
-		return filtering.FilterYAML{
-			Enabled: on, URL: "https://lists.example/" + strconv.Itoa(id) + ".txt",
-			Name:   "list " + strconv.Itoa(id),
-			Filter: filtering.Filter{ID: rulelist.URLFilterID(id)},
+	ids := map[string]int{"allow": 11, "offallow": 12, "block": 21, "offblock": 22, "block2": 23}
+	var blockLists, allowLists []filtering.FilterYAML
+	for _, k := range zzC0102ListKeys {
+		l := &zzC0102List{
+			key: k, white: strings.HasSuffix(k, "allow"), src: filepath.Join(sdir, k+".txt"),
+			exists: true, enabled: !strings.HasPrefix(k, "off"), lines: byKey[k],
+		}
+		z.lists[k] = l
+		if len(l.lines) == 0 {
+			// A list without rules may be absent, switched off, or present
+			// and empty.
+			switch rng.Intn(3) {
+			case 0:
+				l.exists, l.enabled = false, false
+			case 1:
+				l.enabled = false
+			}
+		}
+
+		if !l.exists {
+			continue
+		}
+
+		body := zzC0102ListBody(k, l.lines)
+		if err = os.WriteFile(l.src, body, 0o644); err != nil {
+			return nil, err
+		}
+		if err = os.WriteFile(filepath.Join(fdir, strconv.Itoa(ids[k])+".txt"), body, 0o644); err != nil {
+			return nil, err
+		}
+
+		y := filtering.FilterYAML{
+			Enabled: l.enabled, URL: l.src, Name: "list " + k,
+			Filter: filtering.Filter{ID: rulelist.URLFilterID(ids[k])},
+		}
+		if l.white {
+			allowLists = append(allowLists, y)
+		} else {
+			blockLists = append(blockLists, y)
 		}
 	}
 
@@ -449,48 +527,47 @@ func zzC0102Build(cfg *zzC0102Cfg, dir string, rng *rand.Rand) (z *zzC0102Srv, e
 	}
 
 	if cfg.Client.Known {
-		p := &client.Persistent{
-			Name: zzC0102Kid, UID: client.MustNewUID(),
-			IPs:                   []netip.Addr{netip.MustParseAddr(zzC0102C1)},
-			UseOwnSettings:        cfg.Client.UseOwn,
-			FilteringEnabled:      cfg.Client.Filt,
-			UseOwnBlockedServices: cfg.Client.Svc != "inherit",
-			BlockedServices:       zzC0102Services(cfg.Client.Svc),
-		}
-		if err = z.st.Add(ctx, p); err != nil {
+		if err = z.st.Add(ctx, z.persistent(cfg.Client)); err != nil {
 			return nil, fmt.Errorf("adding client: %w", err)
 		}
 	}
 
-	fc := &filtering.Config{
+	z.fc = &filtering.Config{
 		BlockingIPv4:         netip.MustParseAddr(zzC0102Addrs["cust4"]),
 		BlockingIPv6:         netip.MustParseAddr(zzC0102Addrs["cust6"]),
 		ApplyClientFiltering: z.st.ApplyClientFiltering,
 		BlockedServices:      zzC0102Services(cfg.Svc),
 		DataDir:              dir,
 		BlockingMode:         filtering.BlockingMode(cfg.Mode),
-		Filters:              []filtering.FilterYAML{mkList(21, true), mkList(22, false), mkList(23, true)},
-		WhitelistFilters:     []filtering.FilterYAML{mkList(11, true), mkList(12, false)},
+		Filters:              blockLists,
+		WhitelistFilters:     allowLists,
 		UserRules:            z.texts["custom"],
 		BlockedResponseTTL:   10,
 		FilteringEnabled:     cfg.Filt,
 		ProtectionEnabled:    cfg.Prot == "on",
+		SafeFSPatterns:       []string{filepath.Join(sdir, "*")},
+		ConfigModified:       func() {},
+		HTTPRegister: func(_, path string, h http.HandlerFunc) {
+			z.handlers[path] = h
+		},
 	}
 	switch cfg.Prot {
 	case "paused":
 		t := time.Now().Add(time.Hour)
-		fc.ProtectionDisabledUntil = &t
+		z.fc.ProtectionDisabledUntil = &t
 	case "expired":
 		t := time.Now().Add(-time.Hour)
-		fc.ProtectionDisabledUntil = &t
+		z.fc.ProtectionDisabledUntil = &t
 	}
 
-	z.f, err = filtering.New(fc, nil)
+	z.f, err = filtering.New(z.fc, nil)
 	if err != nil {
 		return nil, fmt.Errorf("filtering.New: %w", err)
 	}
 
-	// The way home.initDNS brings the lists up.
+	// The way home brings the filter up: register the handlers, start the
+	// updates loop, load the lists.
+	z.f.Start()
 	z.f.EnableFilters(false)
 
 	z.up = &zzC0102Up{}
@@ -504,7 +581,7 @@ func zzC0102Build(cfg *zzC0102Cfg, dir string, rng *rand.Rand) (z *zzC0102Srv, e
 		return nil, fmt.Errorf("NewServer: %w", err)
 	}
 
-	err = z.s.Prepare(&ServerConfig{
+	sc := &ServerConfig{
 		UDPListenAddrs: []*net.UDPAddr{{IP: net.IP{127, 0, 0, 1}}},
 		TCPListenAddrs: []*net.TCPAddr{{IP: net.IP{127, 0, 0, 1}}},
 		TLSConf:        &TLSConfig{},
@@ -513,12 +590,16 @@ func zzC0102Build(cfg *zzC0102Cfg, dir string, rng *rand.Rand) (z *zzC0102Srv, e
 			EDNSClientSubnet: &EDNSClientSubnet{},
 			ClientsContainer: z.st,
 			AAAADisabled:     cfg.AAAAOff,
-			// CacheSize 0: the DNS cache is off.
 		},
 		ConfigModified: func() {},
 		ServePlainDNS:  true,
-	})
-	if err != nil {
+	}
+	if cfg.Cache {
+		// The production default.
+		sc.CacheSize = 4 * 1024 * 1024
+	}
+
+	if err = z.s.Prepare(sc); err != nil {
 		return nil, fmt.Errorf("Prepare: %w", err)
 	}
 
@@ -533,11 +614,180 @@ func (z *zzC0102Srv) close() {
 	_ = z.st.Shutdown(context.Background())
 }
 
+// post calls one of filtering's HTTP handlers.
+func (z *zzC0102Srv) post(path string, body any) (err error) {
+	h := z.handlers[path]
+	if h == nil {
+		return fmt.Errorf("no handler for %s", path)
+	}
+
+	b, _ := json.Marshal(body)
+	r := httptest.NewRequest(http.MethodPost, path, bytes.NewReader(b))
+	r.Header.Set("Content-Type", "application/json")
+	w := httptest.NewRecorder()
+	h(w, r)
+	z.ops = append(z.ops, path+" "+string(b))
+	if w.Code != http.StatusOK {
+		return fmt.Errorf("%s %s: status %d: %s", path, b, w.Code, strings.TrimSpace(w.Body.String()))
+	}
+
+	return nil
+}
+
+func zzC0102SameLines(a, b []string) (ok bool) {
+	return strings.Join(a, "\n") == strings.Join(b, "\n")
+}
+
+// setList brings one rule list to the wanted contents through the handlers the
+// web UI uses.
+func (z *zzC0102Srv) setList(l *zzC0102List, want []string, rng *rand.Rand) (err error) {
+	type setData struct {
+		Name    string `json:"name"`
+		URL     string `json:"url"`
+		Enabled bool   `json:"enabled"`
+	}
+	setURL := func(on bool) (err error) {
+		return z.post("/control/filtering/set_url", map[string]any{
+			"url": l.src, "whitelist": l.white, "data": setData{Name: "list " + l.key, URL: l.src, Enabled: on},
+		})
+	}
+	remove := func() (err error) {
+		return z.post("/control/filtering/remove_url", map[string]any{"url": l.src, "whitelist": l.white})
+	}
+	add := func() (err error) {
+		return z.post("/control/filtering/add_url", map[string]any{"name": "list " + l.key, "url": l.src, "whitelist": l.white})
+	}
+
+	if strings.HasPrefix(l.key, "off") {
+		// A list that stays switched off, with other contents.
+		if zzC0102SameLines(l.lines, want) && (!l.exists || !l.enabled) {
+			return nil
+		}
+		if l.exists {
+			if err = remove(); err != nil {
+				return err
+			}
+			l.exists = false
+		}
+		l.lines = want
+		if len(want) == 0 {
+			return nil
+		}
+		if err = os.WriteFile(l.src, zzC0102ListBody(l.key, want), 0o644); err != nil {
+			return err
+		}
+		if err = add(); err != nil {
+			return err
+		}
+		l.exists, l.enabled = true, false
+
+		return setURL(false)
+	}
+
+	if len(want) == 0 {
+		if !(l.exists && l.enabled && len(l.lines) > 0) {
+			return nil
+		}
+
+		// The last rules of the list go away: switch the list off or
+		// remove it.
+		if rng.Intn(2) == 0 {
+			l.enabled = false
+
+			return setURL(false)
+		}
+		l.exists, l.enabled, l.lines = false, false, nil
+
+		return remove()
+	}
+
+	if err = os.WriteFile(l.src, zzC0102ListBody(l.key, want), 0o644); err != nil {
+		return err
+	}
+
+	switch {
+	case !l.exists:
+		err = add()
+	case !l.enabled:
+		err = setURL(true)
+	case !zzC0102SameLines(l.lines, want):
+		err = z.post("/control/filtering/refresh", map[string]any{"whitelist": l.white})
+	}
+	l.exists, l.enabled, l.lines = true, true, want
+
+	return err
+}
+
+// reconfigure brings the LIVE server from its current configuration to cfg:
+// rule lists and custom rules through filtering's HTTP handlers, the blocking
+// mode through the setter dnsforward's own config handler uses, the
+// persistent client through client.Storage.  Only these may differ.
+func (z *zzC0102Srv) reconfigure(cfg *zzC0102Cfg, rng *rand.Rand) (err error) {
+	old := z.cfg
+	oc, nc := old.Client, cfg.Client
+	oc.Known, nc.Known = false, false
+	if old.Prot != cfg.Prot || old.Filt != cfg.Filt || old.Svc != cfg.Svc || old.AAAAOff != cfg.AAAAOff ||
+		old.Cache != cfg.Cache || oc != nc {
+		return fmt.Errorf("harness: unsupported reconfiguration %s -> %s", zzC0102JSON(old), zzC0102JSON(cfg))
+	}
+
+	z.ops = append(z.ops, "--- reconfigure")
+	byKey := z.render(cfg, rng, false)
+	for _, k := range zzC0102ListKeys {
+		if err = z.setList(z.lists[k], byKey[k], rng); err != nil {
+			return fmt.Errorf("list %s: %w", k, err)
+		}
+	}
+
+	// Custom rules last, with a generation marker (a rule for a name outside
+	// every universe): the handlers rebuild the engines asynchronously, the
+	// marker tells when the engines reflect this reconfiguration.
+	z.gen++
+	marker := fmt.Sprintf("gen%d.zz-verif-marker.example", z.gen)
+	rules := append(append([]string{}, z.texts["custom"]...), "||"+marker+"^")
+	if err = z.post("/control/filtering/set_rules", map[string]any{"rules": rules}); err != nil {
+		return err
+	}
+
+	setts := &filtering.Settings{FilteringEnabled: true, ProtectionEnabled: true}
+	deadline := time.Now().Add(20 * time.Second)
+	for {
+		res, cerr := z.f.CheckHostRules(marker, dns.TypeA, setts)
+		if cerr == nil && res.IsFiltered {
+			break
+		}
+		if time.Now().After(deadline) {
+			return fmt.Errorf("harness: engines not rebuilt within 20 s (marker %s)", marker)
+		}
+		time.Sleep(200 * time.Microsecond)
+	}
+
+	if old.Mode != cfg.Mode {
+		z.f.SetBlockingMode(filtering.BlockingMode(cfg.Mode),
+			netip.MustParseAddr(zzC0102Addrs["cust4"]), netip.MustParseAddr(zzC0102Addrs["cust6"]))
+	}
+
+	ctx := context.Background()
+	switch {
+	case cfg.Client.Known && !old.Client.Known:
+		err = z.st.Add(ctx, z.persistent(cfg.Client))
+	case !cfg.Client.Known && old.Client.Known:
+		if !z.st.RemoveByName(ctx, zzC0102Kid) {
+			err = fmt.Errorf("harness: client not removed")
+		}
+	}
+	z.cfg = cfg
+
+	return err
+}
+
 // zzC0102Obs is a projected observation plus a description of the concrete
 // exchange.
 type zzC0102Obs struct {
 	Out      zzC0102Out `json:"out"`
 	Concrete string     `json:"concrete"`
+	// Rep is true when this server had been asked the question before.
+	Rep bool `json:"rep"`
 }
 
 // query sends one request through handleDNSRequest.  ans is the abstract
@@ -554,6 +804,10 @@ func (z *zzC0102Srv) query(req *zzC0102Req, ans []zzC0102RR, rng *rand.Rand, via
 	z.up.answer = func(r *dns.Msg) (rrs []dns.RR) { return zzC0102RRs(r.Question[0].Name, ans) }
 	z.up.mu.Unlock()
 	z.ql.last = nil
+
+	qkey := strings.ToLower(qname) + "|" + req.Qtype
+	o.Rep = z.asked[qkey]
+	z.asked[qkey] = true
 
 	cli := zzC0102C2
 	if req.Client == "c1" {
@@ -575,7 +829,7 @@ func (z *zzC0102Srv) query(req *zzC0102Req, ans []zzC0102RR, rng *rand.Rand, via
 	}
 
 	o.Concrete = fmt.Sprintf("%s %s from %s", qname, req.Qtype, cli)
-	o.Out = z.abs(qname, qt, res, herr)
+	o.Out = z.abs(qname, qt, res, herr, zzC0102RRs(qname, ans))
 	if res != nil {
 		o.Concrete += fmt.Sprintf(" -> rcode=%s answer=%q ns=%d", dns.RcodeToString[res.Rcode], zzC0102Strs(res.Answer), len(res.Ns))
 	}
@@ -591,17 +845,18 @@ func zzC0102Strs(rrs []dns.RR) (s []string) {
 	return s
 }
 
-// zzC0102StripV6 returns rr's text without ipv6hint values.
-func zzC0102StripV6(rr dns.RR) (s string) {
-	h, ok := rr.(*dns.HTTPS)
-	if !ok {
-		return strings.Join(strings.Fields(rr.String()), " ")
+// zzC0102NoTTL returns rr's text with the TTL zeroed and, if stripV6, without
+// ipv6hint values.
+func zzC0102NoTTL(rr dns.RR, stripV6 bool) (s string) {
+	c := dns.Copy(rr)
+	c.Header().Ttl = 0
+	if h, ok := c.(*dns.HTTPS); ok && stripV6 {
+		zzC0102RemoveV6(h)
 	}
 
-	c := dns.Copy(h).(*dns.HTTPS)
-	zzC0102RemoveV6(c)
-
-	return strings.Join(strings.Fields(c.String()), " ")
+	// Names are compared without regard to letter case (a cached answer
+	// keeps the spelling of the question it was fetched for).
+	return strings.ToLower(strings.Join(strings.Fields(c.String()), " "))
 }
 
 func zzC0102RemoveV6(rr *dns.HTTPS) {
@@ -615,10 +870,12 @@ func zzC0102RemoveV6(rr *dns.HTTPS) {
 }
 
 // abs projects the real observation onto the spec's outcome.
-func (z *zzC0102Srv) abs(qname string, qt uint16, res *dns.Msg, herr error) (out zzC0102Out) {
+//
+// upAns is the answer section the upstream gives (or gave, when the response
+// cache answers) for this question.
+func (z *zzC0102Srv) abs(qname string, qt uint16, res *dns.Msg, herr error, upAns []dns.RR) (out zzC0102Out) {
 	z.up.mu.Lock()
 	calls := append([]dns.Question{}, z.up.calls...)
-	upAns := z.up.last
 	z.up.mu.Unlock()
 
 	out.A = []string{}
@@ -664,15 +921,17 @@ func (z *zzC0102Srv) abs(qname string, qt uint16, res *dns.Msg, herr error) (out
 		return out
 	}
 
-	// Delivered = the upstream's answer, intact?
-	if len(calls) > 0 && res.Rcode == dns.RcodeSuccess && len(res.Answer) == len(upAns) {
+	// Delivered = the upstream's answer, intact?  (Same records, same owners,
+	// same order; TTLs are not compared: a cache counts them down.)
+	// (A cache never keeps an answer without records, so an empty answer
+	// without an exchange is a synthetic one.)
+	if (len(calls) > 0 || (z.cfg.Cache && len(upAns) > 0)) && res.Rcode == dns.RcodeSuccess &&
+		len(res.Answer) == len(upAns) {
 		same := true
 		for i := range upAns {
-			a, b := zzC0102Strs([]dns.RR{res.Answer[i]})[0], zzC0102Strs([]dns.RR{upAns[i]})[0]
-			if z.cfg.AAAAOff {
-				// The statement is silent on IPv6 hints with AAAA disabled.
-				a, b = zzC0102StripV6(res.Answer[i]), zzC0102StripV6(upAns[i])
-			}
+			// With AAAA disabled IPv6 hints are ignored on both sides (the
+			// statement is silent on them).
+			a, b := zzC0102NoTTL(res.Answer[i], z.cfg.AAAAOff), zzC0102NoTTL(upAns[i], z.cfg.AAAAOff)
 			same = same && a == b
 		}
 		if same {
@@ -685,7 +944,7 @@ func (z *zzC0102Srv) abs(qname string, qt uint16, res *dns.Msg, herr error) (out
 	// Anything else must be synthetic: nothing of the upstream may be in it.
 	for _, sec := range [][]dns.RR{res.Answer, res.Ns, res.Extra} {
 		for _, rr := range sec {
-			if rr.Header().Ttl == zzC0102TTL || strings.Contains(rr.String(), "zz-verif-sentinel") {
+			if t := rr.Header().Ttl; (t > zzC0102TTL-200 && t <= zzC0102TTL) || strings.Contains(rr.String(), "zz-verif-sentinel") {
 				out.C = "other:leak:" + strings.Join(strings.Fields(rr.String()), " ")
 
 				return out
